@@ -44,10 +44,10 @@ def same_val(mv, ov):
     return False
 
 
-def run_tree(tree, caller):
+def run_tree(tree, caller, flavour='vars'):
     scope = {'x': CALLER} if caller else None
     before = dict(scope) if scope else None
-    o1 = frames.execute(tree, [], caller_scope=scope)
+    o1 = frames.execute(tree, [], caller_scope=scope, flavour=flavour, hook=(flavour == 'vars'))
     log1 = [dict(p=e['p'], v=fix(e['v'])) for e in o1['log']]
     # the very same spec objects evaluated a second time: nothing may have been carried over
     o2 = frames.execute(tree, [], caller_scope=scope, hook=False, prebuilt=o1['prebuilt'])
@@ -78,13 +78,28 @@ def worker(states):
         if st['phase'] != 1:
             continue
         tree, run, caller = st['tree'], st['run'], st['caller']
-        o1, log, why = run_tree(tree, caller)
-        out['n'] += 1
         out['nontrivial'] += len(run['log']) >= 1
+        # a variables object may be a Vars, a dict literal or the empty dict literal: one law for all
+        for flavour in (FLAVOURS if has_kind(tree, 'vbind') else ['vars']):
+            one_case(out, tree, run, caller, flavour)
+    return out
+
+
+FLAVOURS = ['vars', 'edict']      # thorough adds 'dict' (main)
+
+
+def has_kind(tree, k):
+    return tree['k'] == k or any(has_kind(c, k) for c in tree['c'])
+
+
+def one_case(out, tree, run, caller, flavour):
+    if True:
+        o1, log, why = run_tree(tree, caller, flavour)
+        out['n'] += 1
         # the model's own "refuse" entries (which definition a Ref(name) resolved to) are not directly
         # observable: the definition that ran shows through the marks / readers inside it
         run = dict(run, log=[e for e in run['log'] if e['what'] != 'refuse'])
-        case = dict(tree=tree, caller=caller, predicted=[[e['p'], e['v']] for e in run['log']],
+        case = dict(tree=tree, caller=caller, flavour=flavour, predicted=[[e['p'], e['v']] for e in run['log']],
                     observed=[[e['p'], e['v']] for e in log], text=repr(o1['spec']))
         if not why:
             if [e['p'] for e in log] != [e['p'] for e in run['log']]:
@@ -100,7 +115,6 @@ def worker(states):
             out['bad'].append(dict(why='%s in %s' % (why, case['text']), case=case))
         elif len(out['samples']) < 1 and len(run['log']) >= 2:
             out['samples'].append(case)
-    return out
 
 
 def rand_tree(rng, depth, mode='AUTO'):
@@ -193,6 +207,8 @@ def match_finding(f, case):
 
 def main(tier, seed):
     check = vlib.Check(PROP, tier, seed)
+    if tier == 'thorough':
+        FLAVOURS.append('dict')
     runs = {'quick': [dict(MaxDepth=2, SecondDepth=0, Family='"scope"'), dict(MaxDepth=2, SecondDepth=0, Family='"vars"'),
                       dict(MaxDepth=2, SecondDepth=1, Family='"ref"'), dict(MaxDepth=2, SecondDepth=0, Family='"kw"')],
             'thorough': [dict(MaxDepth=2, SecondDepth=1, Family='"scope"'), dict(MaxDepth=2, SecondDepth=1, Family='"vars"'),
